@@ -38,6 +38,7 @@ let h_qpred args : fail list =
     let v = eval e in
     let ok = match pred with
       | "redactable" -> is_wf v && mcl (lex v)
+      | "wf" -> is_wf v
       | "linesafe" -> is_linesafe v
       | "nomarker" -> has_no_marker v
       | "noenv" -> n_env (lex v) = O && has_no_marker v
